@@ -315,8 +315,9 @@ func (g *hdGen) checkReencode(in []byte, h *wire.Header) {
 	if e.GetLength(h.Version) != protocol.ByteCount(len(b2)) {
 		g.monfail("headers/length", fmt.Sprintf("parsed header: len(Append)=%d, GetLength=%d", len(b2), e.GetLength(h.Version)), detail)
 	}
-	// Append always uses 2 bytes for Length and never writes the reserved bits
-	if len(b2) < int(e.ParsedLen()) || len(b2) > int(e.ParsedLen())+1 {
+	// Append always uses 2 bytes for Length (one more than a 1-byte Length of the input) and minimal
+	// varints otherwise: it is never longer than that; it is shorter when the input used non-minimal varints
+	if len(b2) > int(e.ParsedLen())+1 {
 		g.monfail("headers/reencode", fmt.Sprintf("re-encoding has %d bytes, the parsed header %d", len(b2), e.ParsedLen()), detail)
 	}
 	in2 := append(append([]byte{}, b2...), in[e.ParsedLen():]...)
@@ -802,6 +803,67 @@ func (g *hdGen) doVNCompose(rnd byte, dst, src []byte, versions []protocol.Versi
 // byte strings
 // ---------------------------------------------------------------------------------------
 
+// non-minimal varints in long headers (RFC 9000 section 16): the token length of an Initial and the
+// Length field, each 1/2/4/8 bytes wide.  Independent of the parser: the header ends exactly where
+// the hand-assembled one ends, token and Length are the values written, ParsePacket cuts there.
+func (g *hdGen) wideCases() {
+	r := g.r
+	app := func(b []byte, v uint64, w int) []byte {
+		switch w {
+		case 1:
+			return append(b, byte(v))
+		case 2:
+			return append(b, byte(v>>8)|0x40, byte(v))
+		case 4:
+			return append(b, byte(v>>24)|0x80, byte(v>>16), byte(v>>8), byte(v))
+		}
+		return append(b, byte(v>>56)|0xc0, byte(v>>48), byte(v>>40), byte(v>>32), byte(v>>24), byte(v>>16), byte(v>>8), byte(v))
+	}
+	for _, ver := range []uint32{1, 0x6b3343cf} {
+		for _, initial := range []bool{true, false} {
+			for _, wt := range []int{1, 2, 4, 8} {
+				for _, wl := range []int{1, 2, 4, 8} {
+					if !initial && wt != 1 {
+						continue
+					}
+					tl := int(r.Pick(0, 1, 5, 63))
+					ln := int(r.Pick(4, 20, 63))
+					tb := byte(0xc0) // Initial in v1
+					switch {
+					case initial && ver != 1:
+						tb = 0xd0
+					case !initial && ver == 1:
+						tb = 0xe0 // Handshake
+					case !initial:
+						tb = 0xf0
+					}
+					dcid, scid, tok := r.Bytes(int(r.Pick(0, 8, 20))), r.Bytes(int(r.Pick(0, 4, 20))), r.Bytes(tl)
+					b := []byte{tb, byte(ver >> 24), byte(ver >> 16), byte(ver >> 8), byte(ver), byte(len(dcid))}
+					b = append(append(append(b, dcid...), byte(len(scid))), scid...)
+					if initial {
+						b = append(app(b, uint64(tl), wt), tok...)
+					}
+					b = app(b, uint64(ln), wl)
+					hdrEnd := len(b)
+					b = append(append(b, r.Bytes(ln)...), r.Bytes(r.Intn(4))...) // packet number + payload, then the next packet
+					h, ok := g.doLong(b, "wide-varint")
+					detail := fmt.Sprintf("token length as %d bytes, Length as %d bytes, input=%x", wt, wl, b)
+					if !ok || h == nil {
+						g.monfail("headers/consumed-wide", "a long header with non-minimal varints is refused", detail)
+						continue
+					}
+					if int(h.ParsedLen()) != hdrEnd || int(h.Length) != ln || (initial && !bytes.Equal(h.Token, tok)) {
+						g.monfail("headers/consumed-wide", fmt.Sprintf("ParsedLen %d (header ends at %d), Length %d (written %d), token %x", h.ParsedLen(), hdrEnd, h.Length, ln, h.Token), detail)
+					}
+					if _, pkt, _, err := wire.ParsePacket(hdExact(b)); err != nil || len(pkt) != hdrEnd+ln {
+						g.monfail("headers/consumed-wide", fmt.Sprintf("ParsePacket cuts %d bytes (err %v), the packet has %d", len(pkt), err, hdrEnd+ln), detail)
+					}
+				}
+			}
+		}
+	}
+}
+
 func (g *hdGen) mutate(enc []byte) []byte {
 	r := g.r
 	b := append([]byte{}, enc...)
@@ -999,6 +1061,7 @@ func runHeaders(w *bufio.Writer, seed uint64, n int, _ []string) {
 	}
 
 	g.connIDBoundaries()
+	g.wideCases()
 
 	// Version Negotiation
 	vsets := [][]protocol.Version{{protocol.Version1}, {protocol.Version1, protocol.Version2}, {protocol.Version2, protocol.Version1}, {}, {0x0a0a0a0a, 1, 1}, {0xffffffff, 0, 0x12345678, 0xff00001d}}
